@@ -38,7 +38,7 @@ namespace {
 struct CkInfo {
 	Checkable::Ptr obj;
 	std::string name;       // config name (host or host!svc)
-	int mode = 0;           // 0 ok, 1 critical, 2 flip ok/critical every 2 runs, 3 throws
+	int mode = 0;           // 0 ok, 1 critical, 2 flip ok/critical every 2 runs, 3 throws, 4 ok but every 3rd result is stamped older than the stored one (rejected)
 	long dur_us = 0;        // how long the check command sleeps
 	long ci_us = 0, ri_us = 0;
 	std::atomic<unsigned long> gen{0};   // seqlock: odd while a driver op on this checkable is in flight
@@ -77,9 +77,25 @@ int IndexOf(const Checkable *c)
 // thread-local context: a lower bound for the clock value the next UpdateNextCheck() on this thread samples
 struct Ctx { const Checkable *ck = nullptr; long t0 = 0; int pcr = 0; bool have = false; long t1 = 0, next = 0; };
 thread_local Ctx tl_Ctx;
+std::atomic<int> l_NextTid{1};
+thread_local int tl_Tid = 0;
+int Tid() { if (!tl_Tid) tl_Tid = l_NextTid.fetch_add(1); return tl_Tid; }
+
+// deterministic ExecuteCheck cases (sch_exec / sch_finish): the command of this subject only records that it was
+// started and keeps the unfinished result, like a plugin process would
+Checkable::Ptr l_PcrCk;
+Host::Ptr l_PcrHost;
+long l_PcrNo = 0;
+long l_DefStarted = 0;
+CheckResult::Ptr l_DefCr;
 
 void SchCheckFn(const Checkable::Ptr& checkable, const CheckResult::Ptr& cr, const Dictionary::Ptr&, bool)
 {
+	if (l_PcrCk && checkable == l_PcrCk) {
+		l_DefStarted++;
+		l_DefCr = cr;
+		return;
+	}
 	int id = IndexOf(checkable.get());
 	if (id < 0 || !l_Running.load()) {
 		// not ours (left-over from an earlier case): behave like a fast OK check
@@ -93,7 +109,7 @@ void SchCheckFn(const Checkable::Ptr& checkable, const CheckResult::Ptr& cr, con
 		// only for calm checkables, whose next_check is never stale
 		long t = NowUs();
 		long late = ci.calm ? std::max(0L, t - ToUs(cr->GetScheduleStart())) : -1;
-		Record({'S', t, id, late, ToUs(cr->GetScheduleStart())});
+		Record({'S', t, id, late, ToUs(cr->GetScheduleStart()), Tid()});
 	}
 	if (ci.dur_us > 0)
 		Utility::Sleep(ci.dur_us / 1e6);
@@ -110,8 +126,18 @@ void SchCheckFn(const Checkable::Ptr& checkable, const CheckResult::Ptr& cr, con
 	cr->SetOutput("sch");
 	cr->SetExecutionEnd(now);
 	cr->SetScheduleEnd(now);
+	if (ci.mode == 4 && run % 3 == 2) {
+		// a result stamped OLDER than the stored one (agent/peer with a skewed clock): ProcessCheckResult discards it
+		// (NewerCheckResultPresent) - but only after it has cleared m_CheckRunning
+		CheckResult::Ptr old = checkable->GetLastCheckResult();
+		if (old) {
+			cr->SetExecutionStart(old->GetExecutionStart() - 1.0);
+			cr->SetScheduleStart(old->GetExecutionStart() - 1.0);
+		}
+	}
 	checkable->ProcessCheckResult(cr);
 	tl_Ctx = Ctx{};
+	Record({'D', NowUs(), id});   // result processing of this execution is over (accepted or rejected)
 }
 
 void InitOnce()
@@ -126,6 +152,8 @@ void InitOnce()
 	Checkable::OnLastCheckStartedChanged.connect([](const Checkable::Ptr& c, const Value&) {
 		if (!l_Running.load()) return;
 		tl_Ctx = Ctx{c.get(), NowUs(), 0};
+		int id = IndexOf(c.get());
+		if (id >= 0) Record({'X', tl_Ctx.t0, id, Tid()});   // ExecuteCheck() entered for c on this thread
 	});
 	Checkable::OnNextCheckChanged.connect([](const Checkable::Ptr& c, const Value&) {
 		if (!l_Running.load()) return;
@@ -147,10 +175,12 @@ void InitOnce()
 	// end of ProcessCheckResult, same thread: the post-state is final (a result exists now by definition)
 	Checkable::OnNewCheckResult.connect([](const Checkable::Ptr& c, const CheckResult::Ptr&, const MessageOrigin::Ptr&) {
 		if (!l_Running.load()) return;
-		if (tl_Ctx.ck != c.get() || !tl_Ctx.pcr || !tl_Ctx.have) return;
+		if (tl_Ctx.ck != c.get() || !tl_Ctx.pcr) return;
 		int id = IndexOf(c.get());
 		if (id < 0) return;
 		CkInfo& ci = *l_Cks[id];
+		if (ci.mode == 3) Record({'D', NowUs(), id});   // thrown: ProcessCheckResult runs in ExecuteCheckHelper's catch block
+		if (!tl_Ctx.have) return;
 		long I = (c->GetStateType() == StateTypeSoft) ? ci.ri_us : ci.ci_us;
 		Record({'N', id, tl_Ctx.t0, tl_Ctx.t1, tl_Ctx.next, I, 1});
 		tl_Ctx = Ctx{};
@@ -276,15 +306,12 @@ VOP(sch_unc)
 
 // sch_cnew kind=host|svc max=<max_check_attempts> ci4= ri4= off=     a never-checked checkable
 // sch_cr now=<T> state=<0..3> [active=0|1]                           the REAL ProcessCheckResult (local: origin = null)
-static Checkable::Ptr l_PcrCk;
-static Host::Ptr l_PcrHost;
-static long l_PcrNo = 0;
 
 static void PcrCleanup()
 {
 	if (!l_PcrHost) return;
 	Host::Ptr h = l_PcrHost;
-	l_PcrCk = nullptr; l_PcrHost = nullptr;
+	l_PcrCk = nullptr; l_PcrHost = nullptr; l_DefCr = nullptr; l_DefStarted = 0;
 	for (const Service::Ptr& sv : h->GetServices()) CkRemoveObject(sv);
 	CkRemoveObject(h);
 }
@@ -321,14 +348,63 @@ VOP(sch_cr)
 	Utility::VerifSetTime(now);
 	CheckResult::Ptr cr = new CheckResult();
 	cr->SetState((ServiceState)a.num("state"));
-	cr->SetScheduleStart(now); cr->SetScheduleEnd(now); cr->SetExecutionStart(now); cr->SetExecutionEnd(now);
+	double st = a.has("start") ? a.dbl("start") : now;   // start > now: stamped in the future (submitter with a faster clock)
+	cr->SetScheduleStart(st); cr->SetScheduleEnd(st); cr->SetExecutionStart(st); cr->SetExecutionEnd(st);
 	cr->SetActive(a.num("active", 1) != 0);
 	cr->SetOutput("sch");
 	auto res = l_PcrCk->ProcessCheckResult(cr);
 	std::ostringstream o;
-	o << "pcr res=" << (int)res << " ty=" << (long)l_PcrCk->GetStateType()
-	  << " next=" << std::llround((l_PcrCk->GetNextCheck() - now) * 10000.0);
+	o << "pcr res=" << (int)res;
+	if (res == Checkable::ProcessingResult::Ok)
+		o << " ty=" << (long)l_PcrCk->GetStateType() << " next=" << std::llround((l_PcrCk->GetNextCheck() - now) * 10000.0);
 	Out(o.str());
+}
+
+// sch_exec now=<T> [race=<state>]   the REAL Checkable::ExecuteCheck(); race: a passive result (stamped T+1) is processed in
+//                                   the window between `before_check = GetTime()` and `m_CheckRunning = true`
+static int l_RaceState = -1;
+VOP(sch_exec)
+{
+	if (!l_PcrCk) throw std::runtime_error("sch_exec without sch_cnew");
+	static bool hooked = false;
+	if (!hooked) {
+		hooked = true;
+		Checkable::OnNextCheckChanged.connect([](const Checkable::Ptr& c, const Value&) {
+			if (l_RaceState < 0 || c != l_PcrCk) return;
+			int st = l_RaceState;
+			l_RaceState = -1;
+			double t = Utility::GetTime() + 1;
+			Utility::VerifSetTime(t);
+			CheckResult::Ptr cr = new CheckResult();
+			cr->SetState((ServiceState)st);
+			cr->SetScheduleStart(t); cr->SetScheduleEnd(t); cr->SetExecutionStart(t); cr->SetExecutionEnd(t);
+			cr->SetActive(false);
+			cr->SetOutput("sch race");
+			c->ProcessCheckResult(cr);
+		});
+	}
+	Utility::VerifSetTime(a.dbl("now"));
+	long before = l_DefStarted;
+	l_RaceState = a.has("race") ? (int)a.num("race") : -1;
+	l_PcrCk->ExecuteCheck();
+	l_RaceState = -1;
+	Out(std::string("exec started=") + (l_DefStarted > before ? "1" : "0"));
+}
+
+// sch_finish now=<T> state=<s>      the command started by sch_exec delivers its result (ProcessCheckResult, active, local)
+VOP(sch_finish)
+{
+	if (!l_PcrCk) throw std::runtime_error("sch_finish without sch_cnew");
+	if (!l_DefCr) { Out("fin none"); return; }
+	double now = a.dbl("now");
+	Utility::VerifSetTime(now);
+	CheckResult::Ptr cr = l_DefCr;
+	l_DefCr = nullptr;
+	cr->SetState((ServiceState)a.num("state"));
+	cr->SetOutput("sch");
+	cr->SetExecutionEnd(now); cr->SetScheduleEnd(now);
+	auto res = l_PcrCk->ProcessCheckResult(cr);
+	Out("fin res=" + std::to_string((int)res));
 }
 
 static struct SchCaseEnd { SchCaseEnd() { RegisterCaseEnd([]() { PcrCleanup(); Utility::VerifSetTime(-1); }); } } l_SchCaseEnd;
@@ -345,7 +421,12 @@ VOP(sch_run)
 	long dur_ms = a.num("dur", 3000);
 	int tp = a.num("tp", 8);
 	long imin = a.num("imin", 50), imax = a.num("imax", 400);
-	int slowPct = a.num("slow", 20), thrPct = a.num("thr", 10);
+	int slowPct = a.num("slow", 20), thrPct = a.num("thr", 10), stalePct = a.num("stale", 10);
+	// quiet=1|2: no storm.  max is small, checkable 1 is slow and holds the slot; while its check runs it is paused (1) or
+	// deleted (2); nothing else happens afterwards.  The completion that frees the slot then notifies nobody
+	// (ExecuteCheckHelper only notifies if the checkable is still in pending): the other, due checkables must
+	// nevertheless start - the scheduler's own 0.5 s re-poll at the concurrency limit is what guarantees it.
+	int quiet = a.num("quiet", 0);
 	long rate = a.num("rate", 200);
 	long slack_us = a.num("slack", 2500) * 1000;
 	long dlo = a.num("dlo", 20), dhi = a.num("dhi", 120);
@@ -386,8 +467,13 @@ VOP(sch_run)
 		ci.ri_us = std::max(imin * 1000, ci.ci_us * rng.range(30, 80) / 100);
 		ci.calm = calmMod > 0 && id % calmMod == 0;
 		int m = (int)rng.range(0, 99);
-		ci.mode = m < thrPct ? 3 : (m < thrPct + 15 ? 1 : (m < thrPct + 45 ? 2 : 0));
+		ci.mode = m < thrPct ? 3 : (m < thrPct + 15 ? 1 : (m < thrPct + 45 ? 2 : (m < thrPct + 45 + stalePct ? 4 : 0)));
 		ci.dur_us = rng.chance(slowPct) ? rng.range(dlo, dhi) * 1000 : (rng.chance(30) ? rng.range(1, 5) * 1000 : 0);
+		if (quiet) {
+			ci.mode = 0;
+			ci.dur_us = (id == 1) ? a.num("hold", 500) * 1000 : 0;
+			ci.calm = (id != 1);
+		}
 		dmax_us = std::max(dmax_us, ci.dur_us);
 		return ObjConfig(runNo, id, svc, ci.ci_us, ci.ri_us, carrier, ci.name);
 	};
@@ -467,6 +553,27 @@ VOP(sch_run)
 	std::thread driver([&]() {
 		Utility::SetThreadName("sch driver");
 		double endAt = Utility::GetTime() + dur_ms / 1000.0;
+		if (quiet) {
+			// wait until the slow check of checkable 1 is running, then take it away from the scheduler mid-check
+			for (int tries = 0; tries < 5000; tries++) {
+				bool running = false;
+				{
+					std::unique_lock<std::mutex> lock(l_RecMutex);
+					for (const Rec& r : l_Recs) {
+						if (r.k == 'S' && r.b == 1) running = true;
+						if (r.k == 'E' && r.b == 1) running = false;
+					}
+				}
+				if (running) break;
+				Utility::Sleep(0.001);
+			}
+			Utility::Sleep(0.02);
+			if (quiet == 1) touch(1, [&](CkInfo& k) { k.obj->SetAuthority(false); k.paused = true; });
+			else touch(1, [&](CkInfo& k) { CkRemoveObject(k.obj); k.exists = false; });
+			Snapshot(checker, nlive.load());
+			while (Utility::GetTime() < endAt) Utility::Sleep(0.05);   // silence
+			return;
+		}
 		while (Utility::GetTime() < endAt) {
 			Utility::Sleep(rng.range(1, 2000000 / rate) / 1e6);
 			int c = (int)rng.range(0, n - 1);
@@ -547,7 +654,9 @@ VOP(sch_run)
 	for (const Rec& r : l_Recs) {
 		std::ostringstream o;
 		switch (r.k) {
-			case 'S': o << "S " << r.a << " " << r.b << " " << r.c << " " << r.d; break;
+			case 'S': o << "S " << r.a << " " << r.b << " " << r.c << " " << r.d << " " << r.e; break;
+			case 'X': o << "X " << r.a << " " << r.b << " " << r.c; break;
+			case 'D': o << "D " << r.a << " " << r.b; break;
 			case 'E': o << "E " << r.a << " " << r.b; break;
 			case 'P': o << "P " << r.a << " " << r.s; break;
 			case 'N': o << "N " << r.a << " " << r.b << " " << r.c << " " << r.d << " " << r.e << " " << r.f; break;
